@@ -38,7 +38,10 @@ impl IoDriver {
         #[cfg(pearl_verif)]
         return File::from_file_verif(path.as_ref(), false).await;
         #[cfg(not(pearl_verif))]
-        File::from_file(path, |f| f.create(false).append(true).read(true)).await
+        // Not `append(true)`: on Linux a positional write through an O_APPEND descriptor ignores its
+        // offset and lands at the end of the file, while every record is written at the offset
+        // reserved for it (the index and the record header store that offset)
+        File::from_file(path, |f| f.create(false).write(true).read(true)).await
     }
 
     pub(crate) async fn create(&self, path: impl AsRef<Path>) -> IOResult<File> {
